@@ -6,7 +6,7 @@ VERIF = os.path.dirname(os.path.dirname(os.path.abspath(__file__)))
 
 
 def seeded():
-    rows = ["| change | property | file(s) | what it needs to manifest | caught by (site of the replay) |", "|---|---|---|---|---|"]
+    rows = ["| change | property | file(s) | what it needs to manifest | first run | now caught by (site of the replay) |", "|---|---|---|---|---|---|"]
     for d in sorted(glob.glob(os.path.join(VERIF, "seeded", "*", "meta.json"))):
         m = json.load(open(d))
         name = os.path.basename(os.path.dirname(d))
@@ -18,7 +18,9 @@ def seeded():
         res = ", ".join(caught) if caught else "**missed**"
         if missed and caught:
             res += "; not by " + ", ".join(missed)
-        rows.append("| %s | %s | %s | %s | %s |" % (name, m.get("property"), ", ".join(m.get("files", [])), trig, res))
+        fp = m.get("first_pass")
+        first = "—" if not fp else ("caught" if any(v.get("caught") for v in fp.values()) else "**missed**")
+        rows.append("| %s | %s | %s | %s | %s | %s |" % (name, m.get("property"), ", ".join(m.get("files", [])), trig, first, res))
     return "\n".join(rows)
 
 
